@@ -247,14 +247,21 @@ func tailIsUnrecognizedOnly(tail string) bool {
 		return false
 	}
 	for _, rn := range tail {
-		o := parseText(c29Path, string(rn))
+		// Lexed after `;;;` (so that neither a leading BOM nor the prelude's
+		// look at the first two bytes is in play): the rune is unrecognised
+		// when the three `;` stay the only tokens.
+		o := parseText(c29Path, ";;;"+string(rn))
 		if o.Panic != nil || o.File == nil {
 			return false
 		}
+		n := 0
 		for tok := range o.File.Stream().All() {
 			if !tok.IsSynthetic() {
-				return false
+				n++
 			}
+		}
+		if n != 3 {
+			return false
 		}
 	}
 	return true
